@@ -181,6 +181,12 @@ package getoptions
 //@ spec func ScalarSameIter(c *option.Option) bool = *c.pString == old_iter(*c.pString) && *c.pInt == old_iter(*c.pInt) && *c.pFloat64 == old_iter(*c.pFloat64) && *c.pBool == old_iter(*c.pBool)
 //@ spec func PassOrWarn(n *programTree) bool = n.unknownMode == Pass || n.unknownMode == Warn
 
+// Completion (C17): the word being completed and the candidate entry of an option key.
+//@ spec func CompWord() string = ite(iterator.idx < len(args), args[iterator.idx], "")
+//@ spec func CompPartial() string = trimprefix(trimprefix(CompWord(), "-"), "-")
+//@ spec func OptEntry(n *programTree, k string) string = ite(n.ChildOptions[k].OptType != option.BoolType, "--" ++ k ++ "=", "--" ++ k)
+//@ spec func OptCandidate(n *programTree, k string) bool = (k in n.ChildOptions) && k != "-" && hasprefix(k, CompPartial())
+
 //@ func parseCLIArgs
 //@   props C19
 //@   requires parse.tree: tree != nil && TreeOK()
@@ -215,14 +221,33 @@ package getoptions
 //@     step cmd.carry {C03,C08}: forall c *programTree :: Positional() && (Tok() in N0().ChildCommands) && c == currentProgramNode ==>
 //@       isconcat(c.ChildText, old_iter(c.ChildText), old_iter(N0().ChildText))
 //@       && isconcat(c.UnknownOptions, old_iter(c.UnknownOptions), old_iter(N0().UnknownOptions))
+//@     step comp.commands {C17,C20}: $returned && completionMode != "" && !hasprefix(CompWord(), "-") && result2 == nil ==> result0 == N0() && sorted(result1)
+//@       && (forall q string :: (q in N0().ChildCommands) && hasprefix(q, CompWord()) ==> inseq(q, result1) || (len(result1) == 1 && completionMode == "bash" && result1[0] == q ++ " "))
+//@       && (forall j int :: 0 <= j && j < len(N0().Suggestions) && hasprefix(N0().Suggestions[j], CompWord()) ==> inseq(N0().Suggestions[j], result1) || (len(result1) == 1 && completionMode == "bash" && result1[0] == N0().Suggestions[j] ++ " "))
+//@     step comp.options {C17,C20}: $returned && completionMode != "" && hasprefix(CompWord(), "-") && !contains(CompPartial(), "=") && result2 == nil ==> result0 == N0() && sorted(result1)
+//@       && (forall q string :: OptCandidate(N0(), q) ==> inseq(OptEntry(N0(), q), result1))
 //@     step opt.once {C03}: Parsing() && LooksLikeOption(Tok()) && !$exit ==> currentProgramNode == N0() && OthersSameIter(N0())
 //@       && (eqseq(N0().ChildText, old_iter(N0().ChildText)) || isappend1(N0().ChildText, old_iter(N0().ChildText), Tok()))
 //@     step opt.kept {C08,C03}: Parsing() && LooksLikeOption(Tok()) && !$exit && len(N0().UnknownOptions) > old_iter(len(N0().UnknownOptions)) && PassOrWarn(N0())
 //@       ==> isappend1(N0().ChildText, old_iter(N0().ChildText), Tok())
 //@   loop "for k, v := range currentProgramNode.ChildOptions"
 //@     invariant comp.lastopt: (exists i int :: 0 <= i && i < len(completions) && completions[i] != "-") ==> lastOpt != nil
+//@     invariant comp.opt.complete {C17}: !contains(CompPartial(), "=") ==> (forall q string :: (q in $seen) && OptCandidate(currentProgramNode, q) ==> inseq(OptEntry(currentProgramNode, q), completions))
+//@     invariant comp.opt.sound {C17}: !contains(CompPartial(), "=") ==> (forall i int :: 0 <= i && i < len(completions) ==>
+//@       (completions[i] == "-" && CompWord() == "-" && ("-" in currentProgramNode.ChildOptions)) || (exists q string :: (q in $seen) && OptCandidate(currentProgramNode, q) && completions[i] == OptEntry(currentProgramNode, q)))
 //@   loop "for _, e := range lastOpt.SuggestedValues"@2
 //@     invariant comp.first: len(completions) >= 1
+//@   loop "for k := range currentProgramNode.ChildCommands"
+//@     invariant comp.cmd.complete {C17}: forall q string :: (q in $seen) && hasprefix(q, CompWord()) ==> inseq(q, completions)
+//@     invariant comp.cmd.sound {C17}: forall i int :: 0 <= i && i < len(completions) ==> (completions[i] in currentProgramNode.ChildCommands) && hasprefix(completions[i], CompWord())
+//@   loop "for _, e := range currentProgramNode.Suggestions"
+//@     invariant comp.sug.cmds {C17}: forall q string :: (q in currentProgramNode.ChildCommands) && hasprefix(q, CompWord()) ==> inseq(q, completions)
+//@     invariant comp.sug.complete {C17}: forall j int :: 0 <= j && j <= $idx && hasprefix(currentProgramNode.Suggestions[j], CompWord()) ==> inseq(currentProgramNode.Suggestions[j], completions)
+//@     invariant comp.sug.sound {C17}: forall i int :: 0 <= i && i < len(completions) ==> hasprefix(completions[i], CompWord())
+//@       && ((completions[i] in currentProgramNode.ChildCommands) || inseq(completions[i], currentProgramNode.Suggestions))
+//@   loop "for _, fn := range currentProgramNode.SuggestionFns"
+//@     invariant comp.fn.cmds {C17}: forall q string :: (q in currentProgramNode.ChildCommands) && hasprefix(q, CompWord()) ==> inseq(q, completions)
+//@     invariant comp.fn.sugs {C17}: forall j int :: 0 <= j && j < len(currentProgramNode.Suggestions) && hasprefix(currentProgramNode.Suggestions[j], CompWord()) ==> inseq(currentProgramNode.Suggestions[j], completions)
 //@   loop "for _, p := range optPair"
 //@     modifies iterator.idx, programTree.ChildText, programTree.UnknownOptions, option.Option.Called, option.Option.UsedAlias, option.Option.MapKeysToLower,
 //@       cell(bool), cell(string), cell(int), cell(float64), cell([]string), cell([]int), cell([]float64), allmaps(map[string]string)
